@@ -110,3 +110,68 @@ UNITS = [
     Unit('C05_matmul', 'C05', [matmul], use=[c15.is_matrix, c15.transpose], types=core.TYPES, type_spec=core.TYPE_SPEC, spec=SPEC, preludes=PRE, broadcast=BC, level='L1', rlimit=120,
          notes='slice-level matmul, all four flag combinations: length m*n and every entry equals the sum over k of op(A)[i,k]*op(B)[k,j]'),
 ]
+
+# ---------------------------------------------------------------- Dot trait: Matrix . Matrix (16 methods)
+DOT_TRAIT = r'''
+pub trait Dot<T, S> {
+    /// type invariants of the operands for method k (0 dot, 1 dot_t, 2 t_dot, 3 t_dot_t)
+    spec fn dot_pre(&self, other: T, k: int) -> bool;
+    /// conformability of the operand shapes for method k (property C05: otherwise the call is rejected)
+    spec fn dot_valid(&self, other: T, k: int) -> bool;
+    fn dot(&self, other: T) -> (r: S) requires self.dot_pre(other, 0), self.dot_valid(other, 0) || may_reject();
+    fn dot_t(&self, other: T) -> (r: S) requires self.dot_pre(other, 1), self.dot_valid(other, 1) || may_reject();
+    fn t_dot(&self, other: T) -> (r: S) requires self.dot_pre(other, 2), self.dot_valid(other, 2) || may_reject();
+    fn t_dot_t(&self, other: T) -> (r: S) requires self.dot_pre(other, 3), self.dot_valid(other, 3) || may_reject();
+}
+'''
+DOT_WFD = r'''
+pub open spec fn wfd(nrows: usize, ncols: usize, len: nat) -> bool {
+    nrows * ncols == len && len <= i32max() && nrows <= i32max() && ncols <= i32max()
+}
+'''
+DOT_TRAIT_DECL = DOT_TRAIT
+DOTK = {'dot': (0, False, False), 'dot_t': (1, False, True), 't_dot': (2, True, False), 't_dot_t': (3, True, True)}
+D = 'linalg::array::dot::'
+
+
+def _mm_items(other_ty):
+    def dims(ta, tb):
+        m = 'self.ncols' if ta else 'self.nrows'
+        l = 'self.nrows' if ta else 'self.ncols'
+        n = 'other.nrows' if tb else 'other.ncols'
+        lb = 'other.ncols' if tb else 'other.nrows'
+        return m, l, n, lb
+    pre = []
+    val = []
+    for name, (k, ta, tb) in DOTK.items():
+        m, l, n, lb = dims(ta, tb)
+        pre.append('(k == %d ==> %s * %s <= i32max())' % (k, m, n))
+        val.append('(k == %d ==> %s == %s)' % (k, l, lb))
+    return ('    open spec fn dot_pre(&self, other: %s, k: int) -> bool { wfd(self.nrows, self.ncols, self.data.v@.len()) && wfd(other.nrows, other.ncols, other.data.v@.len()) '
+            '&& self.nrows > 0 && other.nrows > 0 && %s }\n'
+            '    open spec fn dot_valid(&self, other: %s, k: int) -> bool { %s }' % (other_ty, ' && '.join(pre), other_ty, ' && '.join(val)))
+
+
+DOT_MM = []
+for self_ty in ['Matrix', '&Matrix']:
+    for other_ty in ['Matrix', '&Matrix']:
+        hdr = 'impl Dot<%s, Matrix> for %s' % (other_ty, self_ty)
+        items_ = _mm_items(other_ty)
+        for name, (k, ta, tb) in DOTK.items():
+            m = 'self.ncols' if ta else 'self.nrows'
+            l = 'self.nrows' if ta else 'self.ncols'
+            n = 'other.nrows' if tb else 'other.ncols'
+            lb = 'other.ncols' if tb else 'other.nrows'
+            tag = 'C05.dot.%s<%s>for%s' % (name, other_ty, self_ty)
+            DOT_MM.append(Fn(D + '{%s}::%s' % (hdr, name), ret='r', level='L1', valid='%s == %s' % (l, lb), panics={1: 'REJECT'},
+                             impl_items=items_, rej_clause=False,
+                             ensures=[tag + '.valid:: %s == %s' % (l, lb),
+                                      tag + '.shape:: r.nrows == %s && r.ncols == %s && wf(r)' % (m, n),
+                                      tag + '.entry:: is_product(r.data.v@, self.data.v@, self.ncols as int, %s, other.data.v@, other.ncols as int, %s, %s as int, %s as int, %s as int)'
+                                      % (str(ta).lower(), str(tb).lower(), m, l, n)],
+                             pre_body='proof { lemma_mul_div(self.nrows as int, self.ncols as int); lemma_mul_div(other.nrows as int, other.ncols as int); }'))
+
+UNITS.append(Unit('C05_dot_mm', 'C05', DOT_MM, use=_core_all + [matmul], types=core.TYPES, type_spec=core.TYPE_SPEC, spec=SPEC + DOT_WFD,
+                  traits=[(D + '{trait Dot}', DOT_TRAIT_DECL)], preludes=PRE, broadcast=BC, level='L1',
+                  notes='16 Matrix.Matrix product methods (plain / transpose-left / transpose-right / both, owned and borrowed operands) '
+                        'against the matmul contract: conformability rejected, output shape, every entry'))
